@@ -293,11 +293,14 @@ func RaceMain(prop string, seed uint64, seconds int) int {
 			for i := 0; time.Now().Before(deadline); i++ {
 				s := mix64(seed, uint64(w)+1, uint64(i)+1)
 				var err error
-				func() {
+				doneCh := make(chan error, 1)
+				go func() {
+					var err error
 					defer func() {
 						if r := recover(); r != nil {
 							err = fmt.Errorf("panic: %v", r)
 						}
+						doneCh <- err
 					}()
 					if prop == "C13" {
 						err = raceC13(s, dir)
@@ -305,6 +308,13 @@ func RaceMain(prop string, seed uint64, seconds int) int {
 						err = raceC09(s, dir)
 					}
 				}()
+				select {
+				case err = <-doneCh:
+				case <-time.After(120 * time.Second):
+					// a workload of a few milliseconds that does not finish within two
+					// minutes: goroutines are stuck inside the code under test
+					err = fmt.Errorf("HANG: run did not finish within 120s (readers/writers/closer or producer/consumer blocked)")
+				}
 				atomic.AddInt64(&runs, 1)
 				if err != nil {
 					mu.Lock()
@@ -317,10 +327,18 @@ func RaceMain(prop string, seed uint64, seconds int) int {
 			}
 		}(w)
 	}
-	wg.Wait()
-	fmt.Printf("RACE-RUNS %d\n", runs)
-	if firstErr != "" {
-		fmt.Printf("RACE-ERROR %s\n", firstErr)
+	wgDone := make(chan struct{})
+	go func() { wg.Wait(); close(wgDone) }()
+	select {
+	case <-wgDone:
+	case <-time.After(time.Duration(seconds)*time.Second + 150*time.Second):
+	}
+	fmt.Printf("RACE-RUNS %d\n", atomic.LoadInt64(&runs))
+	mu.Lock()
+	fe := firstErr
+	mu.Unlock()
+	if fe != "" {
+		fmt.Printf("RACE-ERROR %s\n", fe)
 		return 1
 	}
 	return 0
